@@ -275,6 +275,34 @@ def _history(E, length):
     return 'ok'
 
 
+SCOPED = ['5k', '2k+1', '1e999', '3%', 'x+2k', 'k', '2k*k', '7']
+SCOPES = [dict(suffixes={'k': 1000.0, '%': 0.01}, allow_inf=False), dict(suffixes={'k': 1024.0, '%': 0.5}, allow_inf=False), dict(suffixes={'%': 0.01}, allow_inf=False),
+          dict(suffixes={'k': 1000.0, '%': 0.01}, allow_inf=True)]
+
+
+def h_scope_history(E, length):
+    """the same string evaluated again under ANOTHER scope (other suffix values, a suffix removed, infinities allowed or not, another value of x): each
+    evaluation gives what a fresh parser gives under that scope - nothing of an earlier evaluation is remembered"""
+    import mitxgraders.helpers.calc.expressions as X
+    from mitxgraders.exceptions import MITxError
+    X.PARSER.cache = {}
+
+    def outcome(f):
+        try:
+            v = f()[0]
+            return ('value', repr(complex(v)))
+        except MITxError as e:
+            return ('error', type(e).__name__)
+    for step in range(length):
+        s = E.choice('s%d' % step, SCOPED)
+        sc = SCOPES[E.fork_int('scope%d' % step, 0, len(SCOPES) - 1)]
+        env = {'x': float(step + 1), 'k': 7.0}
+        got = outcome(lambda: X.evaluator(s, env, X.DEFAULT_FUNCTIONS, sc['suffixes'], allow_inf=sc['allow_inf']))
+        want = outcome(lambda: X.MathParser().parse(s).eval(env, X.DEFAULT_FUNCTIONS, sc['suffixes'], allow_inf=sc['allow_inf']))
+        E.check('value-independent-of-history', got == want)
+    return 'ok'
+
+
 NAME_CATALOGUE = [
     ('T^{-1}', ['T^{-1}'], [], []), ("U_{-2}^{-3}'(y)", ['y'], ["U_{-2}^{-3}'"], []), ('[a^{-b},1]', ['a^{-b}'], [], []), ('2^A^{-1}', ['A^{-1}'], [], []),
     ("x_{1}^{2}'+x_{1}^{2}", ["x_{1}^{2}'", 'x_{1}^{2}'], [], []), ("f'(x')+f(x)", ["x'", 'x'], ["f'", 'f'], []), ('a_1_2*a_1', ['a_1_2', 'a_1'], [], []),
@@ -362,6 +390,7 @@ def harnesses(tier):
     add(h_inductive, 'inductive_step', {}, 'arbitrary cache subset x 7 inputs x <=2 fired actions over 5 names x 3 grammar outcomes', validate=False)
     for i in range(len(NAME_CATALOGUE)):
         add(h_name_catalogue, 'name_catalogue', dict(i=i), NAME_CATALOGUE[i][0], validate=False)
+    add(h_scope_history, 'scope_history', dict(length=3 if T else 2), 'all sequences over 8 strings x 4 scopes (suffix values, missing suffix, allow_inf)', validate=False)
     add(h_graded_history, 'graded_history', dict(length=3 if T else 2), 'all sequences of grader calls (4 grader configurations x 8 strings) on the shared PARSER', validate=False)
     add(h_history, 'history', dict(length=4 if T else 3), 'all sequences over 17 strings (incl. tab / newline / no-break-space twins) on the shared PARSER', validate=False)
     return hs
